@@ -219,7 +219,7 @@ def run(repo: Repo, rep: Report, tier: str) -> None:
         raise AnalysisError("C04-R8: fallback lookup / candidate return not found in _resolve_source_entity")
     cand_alts = set()
     for r8 in rets8:
-        cand_alts |= {a for a in crse.alts(r8.value) if a != "None"}
+        cand_alts |= {a for a in crse.alts(r8.value) if a != "None" and "get_source(" not in a}
     key_alts = {a for c in fallback for a in crse.alts(c.args[0]) if a != "None"}
     missing8 = sorted(cand_alts - key_alts)
     rep.check(not missing8, "C04-R8", "_resolve_source_entity: every candidate id can also be looked up in the signal graph", f"candidates {sorted(cand_alts)}; graph keys {sorted(key_alts)}" if not missing8 else
